@@ -83,7 +83,7 @@ def expand_class_aliases(tree: ast.Module) -> None:
     ast.fix_missing_locations(tree)
 
 
-NORMALISED_MODULES = {"coco/b09/visitors.py"}
+NORMALISED_MODULES = {"coco/b09/visitors.py", "coco/b09/compiler.py", "coco/b09/error_handler.py", "coco/decb_to_b09.py"}
 
 
 class Module:
@@ -409,6 +409,11 @@ def resolve_alias(fn: ast.AST, e: ast.AST, depth: int = 0) -> ast.AST:
             continue  # bindings after the use do not reach it (straight-line reading; loops that contain the use are kept)
         if isinstance(n, ast.Assign) and len(n.targets) == 1 and isinstance(n.targets[0], ast.Name) and n.targets[0].id == e.id:
             binds.append(n.value)
+        elif isinstance(n, ast.Assign) and len(n.targets) == 1 and isinstance(n.targets[0], ast.Tuple) and isinstance(n.value, ast.Tuple) and len(n.targets[0].elts) == len(n.value.elts) and any(isinstance(t_, ast.Name) and t_.id == e.id for t_ in n.targets[0].elts):
+            # a, b = x, y
+            for t_, v_ in zip(n.targets[0].elts, n.value.elts):
+                if isinstance(t_, ast.Name) and t_.id == e.id:
+                    binds.append(v_)
         elif isinstance(n, ast.AnnAssign) and isinstance(n.target, ast.Name) and n.target.id == e.id and n.value is not None:
             binds.append(n.value)
         elif isinstance(n, (ast.For, ast.comprehension)) and any(isinstance(t, ast.Name) and t.id == e.id for t in ast.walk(n.target)):
